@@ -1,7 +1,336 @@
-from ..model import AnalysisError
+"""C17 - state-time accounting partitions elapsed time (partial).
+
+  R1 every update_state adds now − last_change to the *old* state's bucket, then assigns the new state, then stamps;
+  R2 `self.state` of a node is written only by update_state (and __init__/reset, before the first stamp);
+  R3 on every path from process start the clock stamp exists before the first timed wait, or that wait is
+     credited explicitly to a state bucket (Machine set-up);
+  R4 the guarded increments of Machine.update_state_rep form two partitions of (processing, blocked) ∈ ℕ²;
+  R5 update_final_state_time credits [last change, T] exactly once;
+  R6 _update_worker_occupancy accumulates into bucket[num_workers] *before* changing num_workers.
+"""
+from __future__ import annotations
+
+import ast
+import itertools
+
+from .. import nodewalk, paths, tables
+from ..model import AnalysisError, Project, self_attr, walk_no_nested
+from ..report import Result
+from .common import site, src
+
 PROP = 'C17'
 LEVEL = 'other'
 
+GROUPS = {
+    'group-1': ('IDLE_STATE', 'ATLEAST_ONE_PROCESSING_STATE', 'ALL_ACTIVE_BLOCKED_STATE'),
+    'group-2': ('IDLE_STATE', 'ALL_ACTIVE_PROCESSING_STATE', 'ATLEAST_ONE_BLOCKED_STATE'),
+}
+STAMPERS = ('update_state', 'update_state_rep', 'check_thread_state_and_update_splitter_state', 'check_thread_state_and_update_combiner_state')
+STATE_WRITERS_OK = ('update_state', '__init__', 'reset')
 
-def run(p, tier):
-    raise AnalysisError('rule module for C17 not implemented yet (fail closed)')
+
+def run(p: Project, tier: str) -> Result:
+    r = Result(PROP)
+    r.explanation = ('Shape of the accumulate-then-switch accounting, single writer of the state, stamp before the first timed wait, and an exact '
+                     'partition check of the Machine state groups over the sign classes of (processing, blocked). That the time charged equals the '
+                     'time actually spent in an activity is not decided.')
+    r.rule('C17.R1', 'update_state: bucket[old state] += now − last change; then state := new; then stamp := now', 4)
+    r.rule('C17.R2', 'self.state of a node is written only in update_state / __init__ / reset', 5)
+    r.rule('C17.R3', 'stamp exists before the first timed wait of the process, or that wait is credited explicitly', 4)
+    r.rule('C17.R4', 'Machine.update_state_rep: each documented state group is a partition of (processing, blocked) ∈ ℕ²; every bucket gets exactly `elapsed`', 2)
+    r.rule('C17.R5', 'update_final_state_time credits the last interval exactly once', 5)
+    r.rule('C17.R6', 'worker occupancy: accumulate into bucket[num_workers] before num_workers changes', 3)
+    r.not_decided = ['that the time charged to processing / blocked / idle equals the time actually spent so (needs the schedule)',
+                     'floating-point exactness of the sums']
+    nodes = tables.node_classes(p)
+    base = tables.find_base(p, 'Node', 'nodes/node.py')
+    seen = set()
+    for ci in [base] + nodes:
+        fi = p.method(ci.key, 'update_state')
+        if fi is not None and fi.key not in seen:
+            seen.add(fi.key)
+            check_update_state(fi, r)
+    check_state_writers(p, nodes, r)
+    ws = nodewalk.walks(p)
+    for w in ws:
+        r.paths += w.npaths
+        check_first_wait(w, r)
+        check_final(p, w, r)
+        check_occupancy(p, w, r)
+    check_machine_groups(p, r)
+    return r
+
+
+def check_update_state(fi, r):
+    r.analysed_functions.add(fi.key)
+    key = f'{fi.key}::accumulate-then-switch'
+    par = [a.arg for a in fi.node.args.args if a.arg != 'self']
+    if len(par) < 2:
+        r.fail('C17.R1', key, 'unexpected signature', src(fi.module), fi.node.lineno)
+        return
+    new, now = par[0], par[1]
+    body = [n for n in fi.node.body if not (isinstance(n, ast.Expr) and isinstance(n.value, ast.Constant))]
+    why = None
+    if not (len(body) >= 3 and isinstance(body[0], ast.If)):
+        why = 'expected: if <state and stamp exist>: accumulate; self.state = new; stamp = now'
+    else:
+        g = ast.unparse(body[0].test).replace(' ', '')
+        if 'self.stateisnotNone' not in g or "self.stats['last_state_change_time']isnotNone" not in g or 'or' in [type(x).__name__.lower() for x in ast.walk(body[0].test) if isinstance(x, ast.Or)]:
+            why = f'accumulation guard is `{ast.unparse(body[0].test)}`'
+        acc = [ast.unparse(x).replace(' ', '') for x in body[0].body]
+        el = [a for a in acc if a.startswith('elapsed=')]
+        if not el or el[0] != f"elapsed={now}-self.stats['last_state_change_time']":
+            why = why or 'elapsed is not `current_time − last_state_change_time`'
+        bucket = [a for a in acc if a.startswith("self.stats['total_time_spent_in_states'][self.state]")]
+        want = "self.stats['total_time_spent_in_states'][self.state]=self.stats['total_time_spent_in_states'].get(self.state,0.0)+elapsed"
+        want2 = "self.stats['total_time_spent_in_states'][self.state]+=elapsed"
+        if not bucket or bucket[0] not in (want, want2):
+            why = why or 'the elapsed time is not added (once) to the bucket of the *current* (old) state'
+        rest = [ast.unparse(x).replace(' ', '') for x in body[1:]]
+        if rest[:2] != [f'self.state={new}', f"self.stats['last_state_change_time']={now}"]:
+            why = why or 'after accumulating, the function must assign the new state and then stamp the change time'
+        if body[0].orelse:
+            why = why or 'unexpected else-branch in the accumulation guard'
+    (r.ok if not why else r.fail)('C17.R1', key, 'old bucket += now − last; state := new; stamp := now' if not why else why, src(fi.module), fi.node.lineno)
+
+
+def check_state_writers(p, nodes, r):
+    for ci in nodes:
+        for c in p.mro(ci.key):
+            for fi in c.methods.values():
+                for n in walk_no_nested(fi.node):
+                    if isinstance(n, (ast.Assign, ast.AugAssign)):
+                        for t in (n.targets if isinstance(n, ast.Assign) else [n.target]):
+                            if self_attr(t) == 'state':
+                                key = f'{fi.key}::write(self.state)'
+                                if fi.name in STATE_WRITERS_OK:
+                                    r.ok('C17.R2', key, f'state written in {fi.name}', src(fi.module), n.lineno)
+                                else:
+                                    r.fail('C17.R2', key, f'`self.state` is assigned in {fi.name}, bypassing update_state: the time in the old state is credited '
+                                                          f'to the wrong bucket', src(fi.module), n.lineno)
+    # reset() must run before the first stamp: it is called at the top of behaviour
+    for ci in nodes:
+        b = p.method(ci.key, 'behaviour')
+        rs = p.method(ci.key, 'reset')
+        if b is None or rs is None:
+            continue
+        writes = any(isinstance(n, ast.Assign) and any(self_attr(t) == 'state' for t in n.targets) for n in walk_no_nested(rs.node))
+        if not writes:
+            continue
+        key = f'{b.key}::reset-before-first-stamp'
+        calls = [n for n in walk_no_nested(b.node) if isinstance(n, ast.Call) and ast.unparse(n.func) == 'self.reset']
+        loops = [n for n in b.node.body if isinstance(n, ast.While)]
+        ok = len(calls) == 1 and loops and calls[0].lineno < loops[0].lineno
+        (r.ok if ok else r.fail)('C17.R2', key, 'reset() runs once, before the process loop' if ok else
+                                 'reset() (which overwrites self.state) is not called exactly once before the process loop', src(b.module), b.node.lineno)
+
+
+def check_first_wait(w, r):
+    fi = w.root_funcs.get('behaviour')
+    if fi is None:
+        return
+    r.analysed_functions.add(fi.key)
+    key = f'{fi.key}::stamp-before-first-wait'
+    init_stamp_none = True
+    init = w.ci.methods.get('__init__')
+    if init is not None:
+        txt = ast.unparse(init.node).replace(' ', '')
+        if "'last_state_change_time':0.0" in txt or "'last_state_change_time':0," in txt:
+            init_stamp_none = False
+    bad = None
+    n = 0
+    for pa in w.roots['behaviour']:
+        if pa.raises:
+            continue
+        evs = pa.events
+        stamped = not init_stamp_none
+        for i, e in enumerate(evs):
+            if e.kind == 'call' and e.name in STAMPERS:
+                stamped = True
+            if e.kind == 'yield' and e.cls == 'timeout':
+                n += 1
+                if not stamped:
+                    # explicit credit of this wait before the next yield?
+                    arg = None
+                    for x in evs[:i]:
+                        if x.kind == 'xcall' and x.d.get('result') == e.value:
+                            arg = x.args[0] if x.args else None
+                    credited = False
+                    for x in evs[i + 1:]:
+                        if x.kind == 'yield':
+                            break
+                        if x.kind == 'setitem' and 'total_time_spent_in_states' in x.target and x.aug and x.aug[0] == 'Add' and x.aug[1] == arg:
+                            credited = True
+                    if not credited:
+                        bad = (pa, f'the process waits on `{e.text}` before any state-change stamp exists and the wait is not credited explicitly: '
+                                   f'that period is lost from the per-state totals (they add up to T minus the wait)')
+                break
+    if n == 0:
+        return
+    (r.ok if not bad else r.fail)('C17.R3', key, 'stamped (or credited explicitly) on every path' if not bad else bad[1], src(fi.module), fi.node.lineno,
+                                  *([bad[0].describe()] if bad else []))
+
+
+def check_final(p, w, r):
+    fi = w.methods.get('update_final_state_time')
+    if fi is None:
+        r.fail('C17.R5', f'{w.ci.label}.update_final_state_time::once', 'update_final_state_time missing', src(w.ci.module), w.ci.node.lineno)
+        return
+    r.analysed_functions.add(fi.key)
+    key = f'{fi.key}::once'
+    par = [a.arg for a in fi.node.args.args if a.arg != 'self']
+    T = par[0] if par else '?'
+    txt = [ast.unparse(n).replace(' ', '') for n in walk_no_nested(fi.node) if isinstance(n, (ast.Assign, ast.AugAssign, ast.Expr))]
+    rep_calls = [t for t in txt if t == f'self.update_state_rep({T})']
+    buckets = [t for t in txt if t.startswith("self.stats['total_time_spent_in_states'][self.state]")]
+    why = None
+    if rep_calls:
+        if len(rep_calls) != 1 or buckets:
+            why = 'the final interval is credited more than once'
+    else:
+        if len(buckets) != 1:
+            why = f'{len(buckets)} credits of the final interval to the current state (expected exactly 1)'
+        else:
+            want = f"self.stats['total_time_spent_in_states'][self.state]=self.stats['total_time_spent_in_states'].get(self.state,0.0)+duration"
+            if buckets[0] not in (want, "self.stats['total_time_spent_in_states'][self.state]+=duration"):
+                why = 'the credit is not `bucket[state] += duration`'
+            durs = [t for t in txt if t.startswith('duration=')]
+            if not durs or any(d != f"duration={T}-self.stats['last_state_change_time']" for d in durs):
+                why = why or 'duration is not `T − last_state_change_time`'
+    (r.ok if not why else r.fail)('C17.R5', key, 'credits [last change, T] once' if not why else why, src(fi.module), fi.node.lineno)
+
+
+def check_occupancy(p, w, r):
+    fi = w.methods.get('_update_worker_occupancy')
+    if fi is None:
+        return
+    r.analysed_functions.add(fi.key)
+    key = f'{fi.key}::accumulate-before-change'
+    why = None
+    n_br = 0
+    for n in walk_no_nested(fi.node):
+        if isinstance(n, ast.If) and 'action' in ast.unparse(n.test):
+            act = ast.unparse(n.test)
+            stmts = [ast.unparse(x).replace(' ', '') for x in n.body]
+            flat = []
+            for x in n.body:
+                if isinstance(x, ast.If):
+                    flat += [ast.unparse(y).replace(' ', '') for y in x.body]
+                else:
+                    flat.append(ast.unparse(x).replace(' ', ''))
+            if not any(s_.startswith('elapsed=') for s_ in flat):
+                continue
+            n_br += 1
+            el = [i for i, s_ in enumerate(flat) if s_ == 'elapsed=self.env.now-self.time_last_occupancy_change']
+            acc = [i for i, s_ in enumerate(flat) if s_ == 'self.time_per_work_occupancy[self.num_workers]+=elapsed']
+            chg = [i for i, s_ in enumerate(flat) if s_.startswith('self.num_workers+=') or s_.startswith('self.num_workers-=')]
+            stamp = [i for i, s_ in enumerate(flat) if s_ == 'self.time_last_occupancy_change=self.env.now']
+            if len(el) != 1 or len(acc) != 1 or len(stamp) != 1:
+                why = why or f'branch `{act}`: expected one elapsed computation, one accumulation into bucket[num_workers] and one stamp'
+                continue
+            if not (el[0] < acc[0] < stamp[0]):
+                why = why or f'branch `{act}`: elapsed → accumulate → stamp order violated'
+            if chg and chg[0] < acc[0]:
+                why = why or f'branch `{act}`: num_workers changes before the elapsed time is credited to the old occupancy'
+            if "'ADD'" in act and flat[chg[0]] != 'self.num_workers+=1' if chg else False:
+                why = why or 'ADD does not increase num_workers by one'
+            if "'REMOVE'" in act and (not chg or flat[chg[0]] != 'self.num_workers-=1'):
+                why = why or 'REMOVE does not decrease num_workers by one'
+    if n_br < 3:
+        why = why or f'only {n_br} of the ADD / REMOVE / UPDATE branches found'
+    (r.ok if not why else r.fail)('C17.R6', key, 'ADD / REMOVE / UPDATE: accumulate into the old occupancy, then change, then stamp' if not why else why,
+                                  src(fi.module), fi.node.lineno)
+
+
+# ------------------------------------------------------------------------------------------- R4
+class NotSignTest(Exception):
+    pass
+
+
+def eval_sign(node, rep):
+    """evaluate a test over previous_state_rep == rep; only comparisons of its components with 0 and with tuples of 0 are allowed."""
+    if isinstance(node, ast.BoolOp):
+        vals = [eval_sign(v, rep) for v in node.values]
+        return all(vals) if isinstance(node.op, ast.And) else any(vals)
+    if isinstance(node, ast.UnaryOp) and isinstance(node.op, ast.Not):
+        return not eval_sign(node.operand, rep)
+    if isinstance(node, ast.Compare) and len(node.ops) == 1:
+        def val(x):
+            if isinstance(x, ast.Name) and x.id == 'previous_state_rep':
+                return rep
+            if isinstance(x, ast.Subscript) and isinstance(x.value, ast.Name) and x.value.id == 'previous_state_rep' and isinstance(x.slice, ast.Constant):
+                return rep[x.slice.value]
+            if isinstance(x, ast.Constant) and x.value == 0:
+                return 0
+            if isinstance(x, ast.Tuple) and all(isinstance(e, ast.Constant) and e.value == 0 for e in x.elts):
+                return tuple(0 for _ in x.elts)
+            raise NotSignTest(ast.unparse(x))
+        a, b = val(node.left), val(node.comparators[0])
+        op = node.ops[0]
+        if isinstance(op, ast.Eq):
+            return a == b
+        if isinstance(op, ast.NotEq):
+            return a != b
+        if isinstance(a, tuple) or isinstance(b, tuple):
+            raise NotSignTest('ordering on tuples')
+        if isinstance(op, ast.Gt):
+            return a > b
+        if isinstance(op, ast.GtE):
+            return a >= b
+        if isinstance(op, ast.Lt):
+            return a < b
+        if isinstance(op, ast.LtE):
+            return a <= b
+    raise NotSignTest(ast.unparse(node))
+
+
+def check_machine_groups(p, r):
+    ci = p.cls('nodes/machine.py', 'Machine')
+    fi = ci.methods.get('update_state_rep')
+    if fi is None:
+        raise AnalysisError('Machine.update_state_rep missing')
+    r.analysed_functions.add(fi.key)
+    guards = {}          # bucket -> list of tests
+    amounts_ok = True
+    bad_amount = None
+    for n in walk_no_nested(fi.node):
+        if isinstance(n, ast.If) and 'previous_state_rep' in ast.unparse(n.test):
+            for s_ in n.body:
+                if isinstance(s_, ast.AugAssign) and "total_time_spent_in_states" in ast.unparse(s_.target):
+                    name = s_.target.slice.value if isinstance(s_.target.slice, ast.Constant) else ast.unparse(s_.target.slice)
+                    guards.setdefault(name, []).append(n.test)
+                    if not (isinstance(s_.op, ast.Add) and ast.unparse(s_.value) == 'elapsed'):
+                        amounts_ok = False
+                        bad_amount = (name, ast.unparse(s_))
+    cells = [(0, 0), (0, 1), (1, 0), (1, 1)]     # sign classes of (processing, blocked); tests compare with 0 only
+    for gname, members in GROUPS.items():
+        key = f'{fi.key}::{gname}-partition'
+        why = None
+        try:
+            for cell in cells:
+                hits = []
+                for m in members:
+                    ts = guards.get(m)
+                    if not ts:
+                        why = f'no guarded increment for {m}'
+                        break
+                    if any(eval_sign(t, cell) for t in ts):
+                        hits.append(m)
+                if why:
+                    break
+                if len(hits) != 1:
+                    sign = f'processing{"=0" if cell[0] == 0 else ">0"}, blocked{"=0" if cell[1] == 0 else ">0"}'
+                    why = (f'for ({sign}) the states {hits or "∅"} of {members} are credited: the group is not a partition, its totals '
+                           f'{"exceed" if len(hits) > 1 else "fall short of"} the elapsed time')
+                    break
+        except NotSignTest as e:
+            why = f'a guard is not a sign test of the previous (processing, blocked) pair: {e}'
+        if not amounts_ok:
+            why = why or f'bucket {bad_amount[0]} is credited with `{bad_amount[1]}`, not with exactly `elapsed`'
+        (r.ok if not why else r.fail)('C17.R4', key, f'{members}: exactly one member holds in each of the 4 sign classes' if not why else why,
+                                      src(fi.module), fi.node.lineno)
+    # elapsed and stamping order
+    txt = [ast.unparse(n).replace(' ', '') for n in walk_no_nested(fi.node) if isinstance(n, ast.Assign)]
+    key = f'{fi.key}::elapsed-and-stamp'
+    ok = "elapsed=current_time-self.stats['last_state_change_time']" in txt and "self.stats['last_state_change_time']=current_time" in txt
+    (r.ok if ok else r.fail)('C17.R1', key, 'elapsed = now − last stamp; stamp := now' if ok else 'elapsed / stamp computation changed', src(fi.module), fi.node.lineno)
